@@ -396,6 +396,17 @@ func runC07(r *Rand, tier string, o *Out) {
 		add("val", l, "deeply-nested-values-cut")
 	}
 
+	// valid signatures nested tens to hundreds of levels deep — lists in lists, maps in the keys of maps — in a value
+	// that holds an empty list / map: building the reader costs in proportion to the depth
+	for _, depth := range []int{26, 48, 200, 900} {
+		lists := strings.Repeat("[", depth) + "i" + strings.Repeat("]", depth)
+		maps := strings.Repeat("{", depth) + "i" + strings.Repeat("i}", depth)
+		for _, sg := range []string{lists, maps} {
+			data := append(append(le(uint32(len(sg))), sg...), le(0)...)
+			add("val", data, "deep-valid-signature")
+			add("rd:[m]", append(le(1), data...), "deep-valid-signature")
+		}
+	}
 	// valid signatures of tens of kilobytes in a value — a struct with a very long name, a tuple of thousands of
 	// members — each twice in a row (whatever the first left behind — a cache, a table — meets the second)
 	for _, sg := range []string{"(i)<" + strings.Repeat("A", 20000) + ",a>", "(" + strings.Repeat("i", 17000) + ")"} {
